@@ -26,7 +26,7 @@ from ..runner import Acc, parallel
 from ..values import ZOO, cp, perturb
 
 LEAVES = [None, True, False, 0, 1, -7, 2 ** 70, 0.0, 1.5, 2.5e-12, "", "a", b"", b"a", M.FIX_UUID,
-          M.FIX_DT, M.FIX_DATE, float("inf"), float("-inf")]
+          M.FIX_DT, M.FIX_DATE, float("inf"), float("-inf"), float("nan")]
 NONPLAIN = [decimal.Decimal("1.5"), fractions.Fraction(1, 3), complex(1, 2), (1, 2), (), {1, 2},
             frozenset([1]), bytearray(b"ab"), range(3), NAMED["memoryview"],
             uuid.UUID("51c2f442-bf61-11f1-b9da-02fc00000001"), uuid.uuid5(uuid.NAMESPACE_DNS, "x"),
@@ -66,7 +66,7 @@ def same(v, w):
     if isinstance(v, dict):
         return isinstance(w, dict) and len(v) == len(w) and all(k in w and same(v[k], w[k]) for k in v)
     if isinstance(v, float):
-        return isinstance(w, float) and math.isclose(v, w)
+        return isinstance(w, float) and (math.isclose(v, w) or (v != v and w != w))
     if isinstance(v, (bool, int)):
         return isinstance(w, (bool, int)) and v == w
     if v is None:
@@ -79,9 +79,11 @@ def same(v, w):
 
 
 def identical(v, w):
-    """same value AND same types, recursively."""
+    """same value AND same types, recursively (nan is identical to nan)."""
     if type(v) is not type(w):
         return False
+    if isinstance(v, float) and v != v:
+        return w != w
     if isinstance(v, list):
         return len(v) == len(w) and all(identical(a, b) for a, b in zip(v, w))
     if isinstance(v, dict):
@@ -193,7 +195,7 @@ def run(tier, seed):
         "bounds": {"tier": tier, "leaves": len(LEAVES), "nonplain_kinds": len(NONPLAIN)},
     }
     return acc, cov, ["True/False identified with 1/0; floats within math.isclose tolerance",
-                      "nan is not among the leaves (a pinned nan accepts nothing by IEEE comparison)"]
+                      "nan is a leaf like any other float: from_native(nan) must accept and generate nan"]
 
 
 def replay(case):
